@@ -59,7 +59,7 @@ def make_target(table):
 
         def _build(self, spec):
             cls = table[spec["cls"]]
-            x = cls(*SPECIAL_ARGS.get(spec["cls"], spec["args"]))
+            x = cls(*SPECIAL_ARGS.get(spec["cls"], spec["args"] if not spec.get("big") else ["x" * spec["big"]]))
             for k, v in spec["attrs"].items():
                 setattr(x, k, tuple(v) if spec.get("tuple_attr") == k else v)
             if spec.get("unser"):
@@ -83,10 +83,19 @@ def make_target(table):
 
         @P.expose
         def gen(self, spec):
-            def g():
+            def streamer():
                 yield 1
                 raise self._build(spec)
-            return g()
+            return streamer()
+
+        @P.expose
+        def keep_and_raise(self, spec):
+            self.kept = self._build(spec)
+            raise self.kept
+
+        @P.expose
+        def raise_kept_again(self):
+            raise self.kept         # the very same exception object, raised by another call
 
         @P.expose
         def ok(self, x):
@@ -123,9 +132,10 @@ def run_jobs(jobs, table):
         for job in jobs:
             sc.set_budget(30000)
             ser, ck, spec, kind, carriable = job["ser"], job["ck"], job["spec"], job["kind"], job["carriable"]
+            config.MAX_MESSAGE_SIZE = job.get("max_message_size", 1024 * 1024 * 1024)
             tr = {"kind": kind, "carriable": carriable, "ck": ck, "ser": ser, "cls": spec["cls"], "argshape": job["a"], "attrshape": job["t"],
                   "outcome": "returned", "same_class": False, "args_equal": False, "attrs_equal": False, "has_traceback": False,
-                  "is_pyro_error": False, "names_class": False, "names_message": False, "next_ok": False}
+                  "is_pyro_error": False, "names_class": False, "names_message": False, "next_ok": False, "tb_own": True}
             try:
                 p = proxies.get(ser)
                 if p is None or p._pyroConnection is None:
@@ -145,6 +155,14 @@ def run_jobs(jobs, table):
                         b.raiser(spec)
                         b.ok(2)
                         res = list(b())
+                    elif ck == "reraise":
+                        try:
+                            p.keep_and_raise(spec)
+                        except (S.Hang, S.SchedAbort):
+                            raise
+                        except Exception:
+                            pass
+                        p.raise_kept_again()
                     elif ck == "stream":
                         it = p.gen(spec)
                         try:
@@ -167,6 +185,9 @@ def run_jobs(jobs, table):
                     tr["attrs_equal"] = same(got_attrs, exp_attrs)
                     tb = getattr(caught, "_pyroTraceback", None)
                     tr["has_traceback"] = bool(tb) and all(isinstance(x, str) for x in tb)
+                    # the remote traceback is that of this raise: it names the function that raised just now
+                    raiser = {"call": "raiser", "batch": "raiser", "getattr": "prop", "stream": "streamer", "reraise": "raise_kept_again"}[ck]
+                    tr["tb_own"] = (not tr["has_traceback"]) or any(raiser in line for line in tb)
                     tr["is_pyro_error"] = isinstance(caught, errors.PyroError)
                     text = str(caught)
                     tr["names_class"] = cls.__name__ in text
@@ -182,6 +203,7 @@ def run_jobs(jobs, table):
                 tr["outcome"] = "hang"
                 proxies.pop(ser, None)
             traces.append(tr)
+        config.MAX_MESSAGE_SIZE = 1024 * 1024 * 1024
         for p in proxies.values():
             try:
                 p._pyroRelease()
@@ -242,6 +264,15 @@ def run(ctx):
                 carriable = not spec["unser"]
                 jobs.append({"ser": ser, "ck": c["ck"], "spec": spec, "kind": kind, "carriable": carriable, "a": c["args"], "t": c["attrs"],
                              "raised_args": list(inst.args)})
+    for si, ser in enumerate(sers):
+        for name in ("ValueError", "Pyro5.errors.NamingError", "KeyError"):
+            kind = "pyro" if name.startswith("Pyro5") else "builtin"
+            jobs.append({"ser": ser, "ck": "reraise", "spec": {"cls": name, "args": ["kept", si], "attrs": {"code": si}, "unser": False}, "kind": kind,
+                         "carriable": True, "a": "str_int", "t": "one_int", "raised_args": ["kept", si]})
+            # an error whose reply is larger than the daemon is allowed to send (MAX_MESSAGE_SIZE is lowered for these)
+            for ck in ("call", "getattr", "stream"):
+                jobs.append({"ser": ser, "ck": ck, "spec": {"cls": name, "args": ["x"], "big": 200000, "attrs": {}, "unser": False}, "kind": "oversize",
+                             "carriable": True, "a": "huge", "t": "none", "raised_args": ["x"], "max_message_size": 65536})
     traces = run_jobs(jobs, table)
     for j in jobs:
         ctx.count(json.dumps([j["spec"]["cls"], j["a"], j["t"], j["ck"], j["ser"]]))
